@@ -361,7 +361,7 @@ func (broker *Broker) recover() (send []sts.Hashed, err error) {
 			log.Debug("Ignore file without a hash:", f.GetPath())
 			return false
 		}
-		if partial, ok := lookup[f.GetName()]; ok {
+		if partial, ok := lookup[f.GetName()]; ok && partial.Hash == f.GetHash() {
 			log.Debug("Found partial:", f.GetName())
 			// Partially sent; need to gracefully recover
 			parts := make(chunks, len(partial.Parts))
